@@ -82,6 +82,8 @@ type World struct {
 	Delegators []sigs.Account
 	Keys       map[string]sigs.Account // every account by address
 	NextSess   uint64
+
+	conflictInfos map[string]*conflictInfo // open conflict votes this harness created (see conflict.go)
 }
 
 const (
